@@ -32,7 +32,13 @@ def file_name(lang, crate):
     return c + "." + EXT[lang]
 
 
-def make_workspace(rng, ncrates):
+STYLE_TICK = [0]
+
+
+FORCED = {"use": 0.2, "use-group": 0.5, "glob": 0.6, "as": 0.7, "use-reexport": 0.8, "qualified-in-generic": 0.9}
+
+
+def make_workspace(rng, ncrates, force=None):
     crates = rng.sample(CRATES, ncrates)
     pool = TYPE_WORDS + [w + "Two" for w in TYPE_WORDS]
     words = rng.sample(pool, 3 * ncrates)
@@ -43,12 +49,16 @@ def make_workspace(rng, ncrates):
     for c in crates:
         # a directory name with a dot cannot be written as a crate path in a `use` item: such crates are never referred to
         others = [(oc, w) for oc in crates if oc != c and "." not in oc for w in owned[oc]]
-        ext = rng.sample(others, min(len(others), rng.randint(0, 2)))
+        ext = rng.sample(others, min(len(others), rng.randint(1 if force else 0, 2)))
         mine = owned[c]
         f = g.file(names=mine, extern_types=[w for _, w in ext])
         style = {}
         for oc, w in ext:
-            r = rng.random()
+            # every reference style comes round regularly (a rotating counter, jittered), whatever the other random choices were
+            STYLE_TICK[0] += 1
+            r = ((STYLE_TICK[0] * 0.137) % 1.0) if rng.random() < 0.7 else rng.random()
+            if force:
+                r = FORCED[force]
             ocn = oc.replace("-", "_")
             if r < 0.4:
                 f["items"].insert(0, {"kind": "use", "tree": ("upath", ocn, ("uname", w))})
@@ -64,7 +74,11 @@ def make_workspace(rng, ncrates):
                 style[w] = "as"
             elif r < 0.84 and len(crates) >= 3:
                 # through a re-export: named via a third crate that generates a module of its own but does not define the type
-                via = rng.choice([x for x in crates if x not in (c, oc)]).replace("-", "_")
+                vias = [x for x in crates if x not in (c, oc) and "." not in x]
+                if not vias:
+                    style[w] = "none"
+                    continue
+                via = rng.choice(vias).replace("-", "_")
                 f["items"].insert(0, {"kind": "use", "tree": ("upath", via, ("uname", w))})
                 style[w] = "use-reexport"
             elif r < 0.92:
@@ -80,6 +94,19 @@ def make_workspace(rng, ncrates):
                 style[w] = "qualified-in-generic"
             else:
                 style[w] = "none"
+        # every cross-crate type is mentioned at least once outside the `use` items; when the generator did not pick it, a holder
+        # struct mentions it once only, in a random position (alone, wrapped, or as the first of two generic arguments)
+        body = "\n".join(l for l in render_file(f).split("\n") if not l.lstrip().startswith("use "))
+        for j, (oc, w) in enumerate(ext):
+            if style.get(w) in ("qualified-in-generic", "none") or re.search(r"\b%s\b" % re.escape(w), body):
+                continue
+            shape = rng.choice([t_path(w), t_path("Vec", [t_path(w)]), t_path("HashMap", [t_path(w), t_path("u8")]),
+                                t_path("HashMap", [t_path(w), t_path("Vec", [t_path("String")])]),
+                                t_path("Option", [t_path("HashMap", [t_path("Vec", [t_path(w)]), t_path("bool")])])])
+            hn = "Holder%d%s" % (j, w)
+            f["items"].append({"kind": "struct", "attrs": [m_path("typeshare")], "ident": hn, "generics": [],
+                               "fields": ("named", [field([], "held", shape)])})
+            mine = mine + [hn]
         sub = rng.choice(["", "models/", "a/b/"])
         # the crate is the directory above the *last* `src` component: some crates live under another crate's `src`
         top = c if rng.random() < 0.75 else "outer%d/src/%s" % (len(files), c)
@@ -119,10 +146,17 @@ def run(check):
                   "definitions per file vs the crate that owns them, same definitions as single-file mode, import statements (TS, "
                   "Kotlin) sound and - outside the known classes - complete; generated text byte-exact against the pipeline + "
                   "back-end models; non-trivial = at least two crates and one cross-crate reference")
-    for w in range(nws):
-        lang = LANGS[w % 6]
-        ncr = rng.randint(1, 5)
-        crates, files, g = make_workspace(rng, ncr)
+    # the first workspaces are one per (import-writing language, reference style): three or four crates, every cross-crate
+    # reference written in that style
+    forced = [(L, st) for st in FORCED for L in ("typescript", "kotlin")] * 2      # twice: a workspace may fail to generate (unsupported types)
+    for w in range(-len(forced), nws):
+        if w < 0:
+            lang, force = forced[w]
+            ncr = rng.randint(3, 4)
+        else:
+            lang, force = LANGS[w % 6], None
+            ncr = rng.randint(1, 5)
+        crates, files, g = make_workspace(rng, ncr, force)
         # the workspace itself may be checked out below a directory called `src` (~/src/project/…)
         root = rng.choice(["ws", "ws", "src/ws", "code/src/proj"])
         with Scratch() as sc:
